@@ -164,6 +164,16 @@ def extract():
         if m is None and any(("MIR_" + l) in PIN_CASES for l in labels):
             pinned.append(("case " + " ".join("MIR_" + l for l in labels), t))
     htext = [(h, emitted_text(func_body(src, h)) or "<missing>") for h in PIN_FUNCS]
+    # statement order inside the ADDO/SUBO[S] cases: is `__uoverflow = ...` printed before the statement that
+    # stores the result (`__overflow = __builtin_..._overflow(..., &dst)`)?
+    uorder = []
+    for k, t in pinned:
+        if k.startswith("case MIR_ADDO"):
+            iu, iv = t.find("__uoverflow = __builtin_"), t.find("__overflow = __builtin_")
+            # t.find("__overflow = ") would also hit inside "__uoverflow = ": look for the signed one explicitly
+            iv = min([m.start() for m in re.finditer(r"(?<!u)__overflow = __builtin_", t)] or [-1])
+            uorder.append(iu >= 0 and iv >= 0 and iu < iv)
+    ufirst = bool(uorder) and all(uorder)
     # the data-section loop of out_item
     item = func_body(src, "out_item") or ""
     m = re.search(r"for \(n = 0, curr_item = item; curr_item != NULL;\s*curr_item = DLIST_NEXT \(MIR_item_t, (\w+)\), n\+\+\)", item)
@@ -198,7 +208,7 @@ def extract():
             problems.append(f"helper {h}: emitted text not understood")
     return dict(int_rows=int_rows, br_rows=br_rows, cast_rows=cast_rows, neg_rows=neg_rows, other=other,
                 inline=inline, pinned=pinned, ops=ops, rej=rej, adv=adv,
-                htext=htext,
+                htext=htext, ufirst=ufirst,
                 problems=problems)
 
 
@@ -228,6 +238,8 @@ def emit_gen(d):
     out.append("def caseCodes : List Nat := [" + ", ".join(str(idx.get(o, 9999)) for o in names) + "]\n")
     out.append("def rejectCodes : List Nat := [" + ", ".join(str(idx.get(o, 9999)) for o in d["rej"]) + "]\n")
     out.append(f"def sectionAdvanceVar : String := {lean_str(d['adv'])}\n")
+    out.append("/-- in the ADDO/SUBO[S] cases the unsigned-overflow statement is printed before the statement storing the result -/")
+    out.append(f"def uoverflowBeforeStore : Bool := {'true' if d['ufirst'] else 'false'}\n")
     out.append("def pinned : List (String × List String) := [")
     out.append(",\n".join(f"  ({lean_str(k)}, {chunks(v)})" for k, v in d["pinned"]) + "]\n")
     out.append("end MirVerif.Gen.C20")
@@ -242,6 +254,10 @@ def emit_canon(d):
     out.append(",\n".join(f"  ({lean_str(h)}, {lean_str(t)})" for h, t in d["htext"]) + "]\n")
     out.append("def pinned : List (String × List String) := [")
     out.append(",\n".join(f"  ({lean_str(k)}, {chunks(v)})" for k, v in d["pinned"]) + "]\n")
+    out.append("/-- the rows without a Lean meaning (moves, floating point, conversions): opcode, helper, operator/cast text -/")
+    out.append("def otherRows : List (String × String × String) := [")
+    out.append(",\n".join(f"  ({lean_str(o)}, {lean_str(h)}, {lean_str(a)})" for o, h, a in d["other"]) + "]\n")
+    out.append("def inlineCases : List String := [" + ", ".join(lean_str(o) for o in d["inline"]) + "]\n")
     out.append("end MirVerif.Canon.C20")
     return "\n".join(out) + "\n"
 
